@@ -44,7 +44,7 @@ ASSUMPTIONS = [
 ]
 BOUND = {
     "quick": "vectors: all sequences of length 0..3 over the 'quick' rendering alphabet (<= 8 values) of 14 dtypes; frames: all single-column frames of 0..2 rows over the same alphabets plus fixed 3-row columns, all ordered pairs of 10 column names, all ordered pairs of a 10-column menu at 0 and 3 rows, all triples of a 5-column menu at 3 rows; GeoJSON: 0..2 features x {null, Point, Polygon} x 3 property sets x {constructor, read from file}; ListOfDicts: all lists of 0..3 items over 8 items; configurations: full product (max_rows {None,1,2} x max_width {None,1,10,40} x truncate_width {None,1,2,5} | max_elements {None,0,1} | max_items {None,0,1}) x precision {0,2,6} x separator {'', ','} x PRINT_MAX_* {default, 2} x terminal {20, 80} x entry points",
-    "thorough": "vectors: all sequences of length 0..3 over the 'thorough' alphabets (<= 12 values); frames: all single-column frames of 0..3 rows over the thorough alphabets, all ordered pairs of 12 column names, all ordered pairs of the 10-column menu at 0..3 rows and all triples at 0/2/3 rows; GeoJSON: 0..3 features; ListOfDicts: all lists of 0..3 items over 11 items; the same full configuration product",
+    "thorough": "vectors: all sequences of length 0..3 over the 'thorough' alphabets (<= 12 values); frames: all single-column frames of 0..2 rows over the thorough alphabets and of 3 rows over their first 10 values, all ordered pairs of 12 column names, all ordered pairs of the 10-column menu at 0..3 rows and all triples at 0/2/3 rows; GeoJSON: 0..3 features; ListOfDicts: all lists of 0..3 items over 11 items; the same full configuration product",
 }
 TIME_CAP = {"quick": 600, "thorough": 3000}
 EXPLANATION = ("states = distinct object descriptions plus distinct rendered texts (addresses masked); transitions = rendering calls, "
@@ -69,7 +69,7 @@ ALPHA = {
     "u1": {"quick": [0, 200], "thorough": [0, 200]},
     "b1": {"quick": [False, True], "thorough": [False, True]},
     "str": {"quick": [None, "a", "日本", E_ACUTE, "l1\nl2", LONG, 'q"r', "l1\n"],
-            "thorough": [None, "a", "日本", E_ACUTE, "l1\nl2", LONG, 'q"r', "l1\n", " ", WIDE_LONG, "\nl2", "l1\r\nl2"]},
+            "thorough": [None, "a", "日本", E_ACUTE, "l1\nl2", LONG, "l1\n", WIDE_LONG, "\nl2", "l1\r\nl2", 'q"r', " "]},
     "U": {"quick": [None, "a", "日本", "l1\nl2"], "thorough": [None, "a", "日本", "l1\nl2", LONG]},
     "D": {"quick": [None, "1970-01-01", "9999-12-31", "0001-01-01"],
           "thorough": [None, "1970-01-01", "9999-12-31", "0001-01-01", "2020-02-29"]},
@@ -82,7 +82,7 @@ ALPHA = {
     "S": {"quick": ["", "x", "yz"], "thorough": ["", "x", "yz"]},
     "objx": {"quick": [None, 1, "日本", {"f": "nan"}, {"dict": {"k": 1}}, {"inst": "default"}, {"inst": "multiline"}, {"date": "2020-02-29"}],
              "thorough": [None, 1, "日本", {"f": "nan"}, {"dict": {"k": 1}}, {"inst": "default"}, {"inst": "multiline"}, {"date": "2020-02-29"},
-                          {"bytes": "x"}, True, {"td": 86400}, LONG]},
+                          {"bytes": "x"}, LONG, True, {"td": 86400}]},
 }
 KINDS = ["f8", "i8", "u1", "b1", "str", "U", "D", "s", "ms", "us", "tds", "tdD", "S", "objx"]
 
@@ -338,7 +338,8 @@ def frame_descs(tier):
         if tier == "quick":
             seqs = [list(t) for t in V.seqs(alpha, 0, 2)] + [list(t) for t in FIXED3[kind]]
         else:
-            seqs = [list(t) for t in V.seqs(alpha, 0, 3)]
+            # three-row columns over the first 10 values of the alphabet, shorter ones over all of it
+            seqs = [list(t) for t in V.seqs(alpha, 0, 2)] + [list(t) for t in itertools.product(alpha[:10], repeat=3)]
         for toks in seqs:
             out.append({"cls": "DataFrame", "cols": [["a", kind, toks]]})
     # (B) column names: every name on three kinds of column, every ordered pair of names
